@@ -51,6 +51,7 @@ S = 1_000_000_000
 TOL_TOKENS = 1e-6
 TOL_NS = 1
 MAX_WAITS = 4  # "within a few steps"
+QUERIES_SHORTER = 2  # mode 'queries' (bare time_until_available calls in the alphabet) runs 2 ops shorter
 
 CLASSNAME = {"token": "TokenBucketPolicy", "leaky": "LeakyBucketPolicy",
              "sliding": "SlidingWindowPolicy", "fixed": "FixedWindowPolicy",
@@ -93,7 +94,7 @@ def spec_units_ns(spec):
     if k == "fixed":
         return [round(spec[2] * S)]
     if k == "adaptive":
-        return [round(spec[6] * S), round(S / spec[1])]
+        return [round(spec[6] * S)]  # W; the specs keep 1/rate on the W/2 lattice
     raise AssertionError(spec)
 
 
@@ -154,6 +155,7 @@ class PolicyRunner:
         # adaptive ghost: rate samples (time_ns, rate) after every op; first = initial (left limit)
         self.rates = [(-1, spec[1])] if self.kind == "adaptive" else None
         self.decreased = False
+        self.decreased_before_first_acquire = False
 
     def clone(self):
         c = PolicyRunner.__new__(PolicyRunner)
@@ -166,6 +168,7 @@ class PolicyRunner:
         c.calls = 0
         c.rates = list(self.rates) if self.rates is not None else None
         c.decreased = self.decreased
+        c.decreased_before_first_acquire = self.decreased_before_first_acquire
         return c
 
     # -- helpers ---------------------------------------------------------
@@ -242,11 +245,7 @@ class PolicyRunner:
         if kind == "acq":
             w, out = self.check_tua(t_ns)
             if self.mode == "probed":
-                w2 = self._tua(pol, t_ns)
-                if (w2 == 0) != (w == 0):
-                    out.append((f"{self.cls}/tua-zero/{self.pclass(t_ns)}",
-                                f"time_until_available({t_ns}ns) answered {w}ns on a copy and {w2}ns on "
-                                f"the policy itself"))
+                self._tua(pol, t_ns)  # the caller asks first (as RateLimitedEntity does); answer checked above
             ok = self._acq(pol, t_ns)
             if w == 0 and not ok and not any("/tua-zero/" in fp for fp, _ in out):
                 out.append((f"{self.cls}/tua-zero/{self.pclass(t_ns)}",
@@ -266,6 +265,15 @@ class PolicyRunner:
                     out.extend(self.check_bound())
             else:
                 self.denied += 1
+        elif kind == "tua":
+            # a bare query (monitoring, or a caller that decides not to acquire): contract checked on
+            # copies, then asked on the policy itself — it must not change what is admitted later
+            _w, out = self.check_tua(t_ns)
+            self._tua(pol, t_ns)
+            self.ops.append((kind, t_ns))
+            self.results.append(None)
+            if self.rates is not None:
+                self.rates.append((t_ns, pol.current_rate))
         else:
             self.calls += 1
             before = pol.current_rate
@@ -276,6 +284,8 @@ class PolicyRunner:
             after = pol.current_rate
             if after < before:
                 self.decreased = True
+                if not any(k == "acq" for k, _t in self.ops):
+                    self.decreased_before_first_acquire = True
             self.ops.append((kind, t_ns))
             self.results.append(None)
             self.rates.append((t_ns, after))
@@ -351,7 +361,9 @@ class PolicyRunner:
                 lim = rmax * wsz + rmax * (tj - ti) / S
                 if cnt > lim + TOL_TOKENS:
                     shape = "burst" if tj == ti else "interval"
-                    if self.decreased:
+                    if self.decreased_before_first_acquire:
+                        shape += "-stale-initial-tokens"  # rate lowered before the first acquire
+                    elif self.decreased:
                         shape += "-after-rate-decrease"
                     return [(f"{self.cls}/bound/{shape}",
                              f"{cnt} requests admitted in [{ti}ns, {tj}ns]; largest rate in force over the "
@@ -403,7 +415,8 @@ def run_policy_sequence(spec, dyadic, mode, ops, verbose=False):
         v = r.step(kind, t)
         if verbose:
             res = r.results[-1]
-            what = {"acq": "try_acquire", "succ": "record_success", "fail": "record_failure"}[kind]
+            what = {"acq": "try_acquire", "succ": "record_success", "fail": "record_failure",
+                    "tua": "time_until_available"}[kind]
             extra = f" current_rate={r.policy.current_rate}" if r.rates is not None else ""
             print(f"  t={t:>12}ns {what:<15} -> {res}{extra}   admitted so far: {r.admitted}")
             for fp, desc in v:
@@ -430,7 +443,7 @@ DYADIC_SPECS = [
 ADAPTIVE_SPECS = [
     (("adaptive", 2.0, 1.0, 4.0, 1.0, 0.5, 1.0), (0, 1, 2), 5, 6),
     (("adaptive", 2.0, 1.0, 4.0, 2.0, 0.5, 1.0), (0, 1, 3), 5, 6),
-    (("adaptive", 4.0, 2.0, 4.0, 1.0, 0.25, 0.5), (0, 2, 4), 5, 6),
+    (("adaptive", 4.0, 2.0, 4.0, 1.0, 0.25, 0.5), (0, 1, 2), 5, 6),
 ]
 NONDYADIC_SPECS = [
     (("token", 1.0, 3.0, None), (0, 1, 2, 3), 5, 7),
@@ -449,18 +462,24 @@ NONDYADIC_SPECS = [
 def run_policy_driver(run, name, table, dyadic, tier, seed, modes, eps=(-1, 0, 1)):
     t0 = time.time()
     jobs = []
-    bounds = {"specs": [], "modes": modes, "grid": "k/2 x (1/rate | W) for k in halves, each +eps ns",
+    bounds = {"specs": [], "modes": modes,
+              "mode_meaning": "plain: try_acquire only; probed: the policy itself is asked time_until_available "
+                              "before every try_acquire; queries: bare time_until_available calls are ops of the "
+                              f"alphabet (sequences {QUERIES_SHORTER} ops shorter)", "grid": "k/2 x (1/rate | W) for k in halves, each +eps ns",
               "eps_ns": list(eps), "interval_bounds_checked": dyadic,
               "tolerance": f"{TOL_TOKENS} tokens / {TOL_NS} ns", "max_waits": MAX_WAITS}
     for (spec, halves, dq, dt) in table:
         depth = dq if tier == "quick" else dt
         grid = make_grid(spec, halves, eps)
-        kinds = ("acq", "succ", "fail") if spec[0] == "adaptive" else ("acq",)
-        bounds["specs"].append({"spec": list(spec), "grid_ns": grid, "max_len": depth, "ops": list(kinds)})
+        base_kinds = ("acq", "succ", "fail") if spec[0] == "adaptive" else ("acq",)
+        bounds["specs"].append({"spec": list(spec), "grid_ns": grid, "max_len": depth, "ops": list(base_kinds)})
         for mode in modes:
+            kinds, dm = base_kinds, depth
+            if mode == "queries":
+                kinds, dm = base_kinds + ("tua",), max(1, depth - QUERIES_SHORTER)
             for gi in range(len(grid)):
                 for k in kinds:
-                    jobs.append((spec, dyadic, grid, depth, mode, kinds, (k, gi)))
+                    jobs.append((spec, dyadic, grid, dm, mode, kinds, (k, gi)))
     d = run.driver(name, bounds)
     states, outcomes = set(), set()
     found = {}
@@ -547,6 +566,8 @@ def run_entity(ekind, cap, arrivals, horizon_ns):
         obs["received"], obs["forwarded"] = stats.received, stats.forwarded
         obs["dropped"], obs["queued_total"] = stats.dropped, stats.queued
         obs["queue_depth"] = lim.queue_depth
+        if k == "inductor":
+            obs["estimated_rate"] = lim.estimated_rate
     elif k == "dist":
         obs["received"], obs["forwarded"] = stats.requests_received, stats.requests_forwarded
         obs["dropped"], obs["queued_total"], obs["queue_depth"] = stats.requests_dropped, 0, 0
@@ -566,6 +587,8 @@ def entity_oracle(ekind, cap, arrivals, obs, dyadic=True):
         shape = "frozen-clock"
         if ekind[0] == "rle":
             shape += "/" + CLASSNAME[ekind[1][0]] + ("" if dyadic else "-non-dyadic")
+        if ekind[0] == "inductor" and obs.get("estimated_rate", 0.0) > 1e9:
+            shape += "/sub-ns-interval"
         out.append((f"{comp}/stall/{shape}",
                     f"more than 150 deliveries at {obs['storm_at']}ns: the drain re-polls at a frozen clock"))
         return out
@@ -605,7 +628,9 @@ def entity_oracle(ekind, cap, arrivals, obs, dyadic=True):
         if b < a:
             ta, tb = arr_tags[a], arr_tags[b]
             t_over = dict((tag, t) for t, tag in obs["arrived"])[ta]
-            shape = "arrival-overtakes-queued"
+            t_fwd = dict((tag, t) for t, _ty, tag in obs["sink"])[ta]
+            # the overtaker went straight through at its arrival instant / had itself been waiting
+            shape = "arrival-overtakes-queued" if t_fwd == t_over else "queue-reordered"
             out.append((f"{comp}/order/{shape}",
                         f"request #{ta} (arrived {a + 1}th, at {t_over}ns) was forwarded before request #{tb} "
                         f"(arrived {b + 1}th); arrival order {arr_tags}, forwarded order {fwd_tags}"))
@@ -687,7 +712,8 @@ ENTITY_KINDS_DYADIC = [
     ("dist", 1, 1.0),
     ("dist", 2, 1.0),
 ]
-ENTITY_TIMES = [0, S // 2, S - 1, S, S + 1, 3 * S // 2, 2 * S]
+ENTITY_TIMES = [0, S // 2, S - 1, S, S + 1, 2 * S]
+ENTITY_TIMES_THOROUGH = [0, S // 2, S - 1, S, S + 1, 3 * S // 2, 2 * S]
 ENTITY_KINDS_NONDYADIC = [
     ("rle", ("fixed", 1, 0.1)),
     ("rle", ("token", 1.0, 3.0, None)),
@@ -761,13 +787,15 @@ def main(tier, seed, only=None):
                            "observation, not a violation)"])
     modes = ["plain", "probed"]
     plan = [
-        ("policy-dyadic", lambda: run_policy_driver(run, "policy-dyadic", DYADIC_SPECS, True, tier, seed, modes)),
+        ("policy-dyadic", lambda: run_policy_driver(run, "policy-dyadic", DYADIC_SPECS, True, tier, seed,
+                                                    modes + ["queries"])),
         ("policy-adaptive", lambda: run_policy_driver(run, "policy-adaptive", ADAPTIVE_SPECS, True, tier, seed,
                                                       modes, eps=(-1, 0, 1) if tier != "quick" else (0, 1))),
         ("policy-nondyadic", lambda: run_policy_driver(run, "policy-nondyadic", NONDYADIC_SPECS, False, tier,
                                                        seed, ["plain"])),
-        ("entity", lambda: run_entity_driver(run, "entity", ENTITY_KINDS_DYADIC, ENTITY_TIMES, (0, 1, 2),
-                                             (0, 1, 2), 4 if tier == "quick" else 5, seed, 64 * S)),
+        ("entity", lambda: run_entity_driver(run, "entity", ENTITY_KINDS_DYADIC,
+                                             ENTITY_TIMES if tier == "quick" else ENTITY_TIMES_THOROUGH,
+                                             (0, 1, 2), (0, 1, 2), 4 if tier == "quick" else 5, seed, 64 * S)),
         ("entity-nondyadic", lambda: run_entity_driver(run, "entity-nondyadic", ENTITY_KINDS_NONDYADIC,
                                                        ENTITY_TIMES_ND, (0, 1), (1, 2),
                                                        3 if tier == "quick" else 4, seed, 16 * S,
